@@ -174,14 +174,18 @@ def run_replay(exe, path, env=None, timeout=300):
     except OSError:
         pass
     if hexline is not None:   # libFuzzer input: the binary re-executes the saved bytes
-        tmp = path + ".bin"
-        with open(tmp, "wb") as fh:
+        import tempfile
+        fd, tmp = tempfile.mkstemp(prefix="vf-fuzz-replay-", suffix=".bin", dir=os.environ.get("VERIF_OUT_DIR", OUT) if os.path.isdir(os.environ.get("VERIF_OUT_DIR", OUT)) else None)
+        with os.fdopen(fd, "wb") as fh:
             fh.write(bytes.fromhex(hexline))
         try:
             r = subprocess.run([exe, tmp], stdout=subprocess.PIPE, stderr=subprocess.STDOUT, text=True, env=env or sanitizer_env(), timeout=timeout, errors="replace")
-            return (0 if r.returncode == 0 else 3 if "C11-ORACLE-FAILURE" in r.stdout else r.returncode), r.stdout
+            return (0 if r.returncode == 0 else 3 if "C11-ORACLE-FAILURE" in r.stdout else r.returncode), r.stdout + ("PASS\n" if r.returncode == 0 else "")
         except subprocess.TimeoutExpired:
             return -999, ""
+        finally:
+            try: os.remove(tmp)
+            except OSError: pass
     try:
         r = subprocess.run([exe, "--replay", path], stdout=subprocess.PIPE, stderr=subprocess.STDOUT, text=True,
                            env=env or sanitizer_env(), timeout=timeout, errors="replace")
